@@ -67,6 +67,7 @@ def run(chk):
         chk.ok('C31-owner', 'NormalizedPathBuf::new', sample='NormalizedPathBuf::new calls cheap_canonicalize_path')
     else:
         chk.lost.append('NormalizedPathBuf::new no longer calls cheap_canonicalize_path')
+    root_rule(chk, fx)
     return ('Structural rule on the ParentDir arm of erg_common::cheap_canonicalize_path. Decides the clause "never discards leading parent-directory components" '
             'as a necessary condition (some path must push `..`); idempotence is not decided.'), {}
 
@@ -172,3 +173,30 @@ def inner_set(q, comps):
     if k == 'PRef':
         return inner_set(q['p'], comps)
     return set()
+
+
+def root_rule(chk, fx):
+    """normalisation must not identify the root with the empty (= current) path"""
+    LIB = 'crates/erg_common/lib.rs'
+    chk.rule('C31-root', 'normalize_path (the constructor of NormalizedPathBuf) never empties a path: if it trims separators off the end of the text (trim_end_matches / strip_suffix / '
+                         'trim_matches / pop with a separator), the function also tests for the result being empty or the path being the bare root — otherwise `/`, `/.`, `/a/..` '
+                         'normalise to the empty path and compare equal to `.` and `a/..`')
+    fs = [f for f in fx.file(LIB)['fns'] if T.norm(f['path']).endswith('normalize_path')]
+    if not chk.need(len(fs) == 1, 'erg_common::normalize_path not found'):
+        return
+    f = fs[0]
+    trims = []
+    for c in T.calls(f['body']):
+        if c.get('k') == 'MCall' and c['n'] in ('trim_end_matches', 'trim_matches', 'strip_suffix', 'trim_end', 'trim_right_matches', 'truncate', 'pop', 'trim_start_matches') :
+            arg = ' '.join(T.show(a) for a in c.get('a', []))
+            if c['n'] in ('trim_end', 'pop', 'truncate') or any(w in arg for w in ('SEPARATOR', "'/'", '"/"', "'\\\\'", 'is_separator')):
+                trims.append(c)
+    if not trims:
+        chk.ok('C31-root', 'no-trim', sample='normalize_path does not trim the end of the path text')
+        return
+    guarded = any(('is_empty' in T.show(i['c']) or 'len()' in T.show(i['c']) or 'has_root' in T.show(i['c']) or 'parent()' in T.show(i['c'])) for i in T.walk(f['body']) if i.get('k') == 'If')
+    if guarded:
+        chk.ok('C31-root', 'trim-guarded', sample='trailing separators are trimmed under an emptiness / root test')
+    else:
+        chk.bad('C31-root', 'erg_common::normalize_path', 'root-emptied', 'normalize_path applies `%s` to the text of the path and never tests for an empty result: the bare root `/` (and every '
+                'path that cancels to it, `/a/..`) becomes the empty path, which compares and hashes equal to the current directory' % T.show(trims[0])[:60], LIB, trims[0].get('l'))
